@@ -198,9 +198,30 @@ def _canon(o, depth=0):
         return ('link', o.needs_resending)
     if n in ('Crazyradio', 'RadioLinkStatistics', 'method', 'function', '_VClock'):
         return n
-    if depth > 3:
+    if isinstance(o, threading.Event):
+        return ('event', o.is_set())
+    if n in ('lock', 'RLock', '_RLock', 'Condition', 'Semaphore', 'BoundedSemaphore'):
+        return (n, o.locked() if hasattr(o, 'locked') else None)
+    if isinstance(o, (set, frozenset)):
+        return ('set', tuple(sorted(repr(_canon(x, depth + 1)) for x in o)))
+    if isinstance(o, dict):
+        return ('dict', tuple(sorted((repr(_canon(k, depth + 1)), _canon(v, depth + 1)) for k, v in o.items())))
+    if depth > 4:
         raise _Fatal('cannot canonicalise %r' % (o,))
-    return (n, tuple(sorted((k, _canon(v, depth + 1)) for k, v in vars(o).items())))
+    fields = {}
+    if hasattr(o, '__dict__'):
+        fields.update(vars(o))
+    for klass in type(o).__mro__:
+        for nm in getattr(klass, '__slots__', ()) or ():
+            if isinstance(nm, str) and hasattr(o, nm):
+                fields[nm] = getattr(o, nm)
+    if not fields and not hasattr(o, '__dict__'):
+        OPAQUE.add(n)
+        return ('opaque', n)
+    return (n, tuple(sorted((k, _canon(v, depth + 1)) for k, v in fields.items())))
+
+
+OPAQUE = set()      # types whose state could not be read (reported as a cap: the state abstraction is then coarser)
 
 
 _PLAIN_THREAD_ATTRS = None
@@ -228,6 +249,18 @@ def _run_info():
             elif i.opname.startswith('LOAD_FAST') and isinstance(i.argval, tuple):
                 for nm in i.argval:
                     loads.setdefault(nm, []).append(line)
+        # the main loop = the loop whose back edge comes last in the code; its head is where "after start-up" begins
+        # (independent of how the stop flag is spelled)
+        off_line = {}
+        line = None
+        for i in ins:
+            if i.starts_line:
+                line = i.starts_line if not isinstance(i.starts_line, bool) else i.positions.lineno
+            off_line[i.offset] = line
+        back = [i for i in ins if 'JUMP_BACKWARD' in i.opname and isinstance(i.argval, int) and i.argval in off_line]
+        if back:
+            head = min(off_line[i.argval] for i in back if i.offset == max(b.offset for b in back))
+            loop_line = head if loop_line is None else min(loop_line, head)
         dead = set()
         if loop_line is not None:
             for nm in ('resp', '_'):
@@ -1095,6 +1128,8 @@ def run(ck):
     ck.note('bfs', infos)
     ck.note('fixpoint_reached_all_configs', all_fix)
     ck.note('run_locals_dropped_after_startup', sorted(_run_info()[1]))
+    if OPAQUE:
+        ck.cap('state of %s objects could not be read: the state abstraction is coarser there' % sorted(OPAQUE))
     ck.exhaustive = all_fix
 
 
